@@ -28,14 +28,22 @@ EXTENDS Integers, Sequences, FiniteSets, TLC
 CONSTANTS Ids,          \* peer host ids
           Addrs,        \* peer addresses
           Filt,         \* addresses the host filter rejects
-          DefectByAddr  \* TRUE: removing a host deletes the address entry even when it
+          DefectByAddr, \* TRUE: removing a host deletes the address entry even when it
                         \* names another host (ring.go removeHost; finding F1)
+          C0peer        \* node-to-node (broadcast) address of the control node: "a0" or "b0"
 
 C0id == "i0"
 C0addr == "a0"
 NoId == "none"
 ZeroId == "00000000-0000-0000-0000-000000000000"
 AllAddrs == Addrs \cup {C0addr}
+\* A node has the address clients connect to (rpc_address; the pools dial it, the host filter
+\* sees it) and the address the nodes use among themselves (peer / broadcast_address; events
+\* name it, the driver's by-address index is keyed by it).  They are equal, or - multi-homed
+\* node - the node-to-node address of the node at aK is bK, where nothing answers.
+Priv(a) == CASE a = "a0" -> "b0" [] a = "a1" -> "b1" [] a = "a2" -> "b2" [] a = "a3" -> "b3" [] a = "a4" -> "b4" [] OTHER -> a
+EventAddrs == AllAddrs \cup {Priv(a) : a \in AllAddrs}
+HA(r) == [addr |-> r.addr, n2n |-> r.peer]
 RefreshBound == 2       \* refreshes a single burst of events may cause
 
 Range(s) == {s[k] : k \in 1 .. Len(s)}
@@ -48,7 +56,7 @@ TheOne(S) == CHOOSE x \in S : TRUE
 (***************************************************************************)
 (* What the cluster reports                                                *)
 (***************************************************************************)
-LocalRow == [id |-> C0id, addr |-> C0addr, inv |-> "ok"]
+LocalRow == [id |-> C0id, addr |-> C0addr, peer |-> C0peer, inv |-> "ok"]
 \* valid peer rows the filter accepts, in the order reported, after the local node
 Reported(rows, filt) == <<LocalRow>> \o SelectSeq(rows, LAMBDA r : r.inv = "ok" /\ r.addr \notin filt)
 RepIds(rep) == {rep[k].id : k \in 1 .. Len(rep)}
@@ -68,21 +76,22 @@ NodeDown(d, a) ==
   IF i = NoId THEN d
   ELSE [d EXCEPT !.down = @ \cup {i}, !.pool = @ \ {i}, !.pol = @ \ {i}]
 
-\* connect to host i (pool fill) and announce it to the policy
+\* connect to host i (pool fill) and announce it to the policy; a pool that cannot connect
+\* reports its host's connect address as down (looked up in the index like any address)
 StartFill(d, i, reach) ==
-  LET a == d.hosts[i] IN
+  LET a == d.hosts[i].addr IN
   IF a \in reach
     THEN [d EXCEPT !.pool = @ \cup {i}, !.pol = @ \cup {i}, !.down = @ \ {i}]
     ELSE LET d1 == NodeDown([d EXCEPT !.pool = @ \cup {i}], a) IN [d1 EXCEPT !.pol = @ \cup {i}]
 
 RemoveHost(d, i) ==
-  LET a == d.hosts[i]
+  LET a == d.hosts[i].n2n
       ba == IF a \in DOMAIN d.byAddr /\ (DefectByAddr \/ d.byAddr[a] = i) THEN Without(d.byAddr, a) ELSE d.byAddr
   IN [hosts |-> Without(d.hosts, i), byAddr |-> ba, hlist |-> RemoveSeq(d.hlist, i),
       pool |-> d.pool \ {i}, pol |-> d.pol \ {i}, down |-> d.down \ {i}]
 
-AddHost(d, i, a, reach) ==
-  StartFill([d EXCEPT !.hosts = Put(@, i, a), !.byAddr = Put(@, a, i), !.hlist = Append(@, i)], i, reach)
+AddHost(d, i, ha, reach) ==
+  StartFill([d EXCEPT !.hosts = Put(@, i, ha), !.byAddr = Put(@, ha.n2n, i), !.hlist = Append(@, i)], i, reach)
 
 \* the refresh, host by host: add if missing, keep if unchanged, replace when the address
 \* changed; afterwards every host that was not reported is removed
@@ -90,9 +99,9 @@ RECURSIVE ApplyRows(_, _, _, _)
 ApplyRows(d, rep, reach, k) ==
   IF k > Len(rep) THEN d
   ELSE LET r == rep[k]
-           d1 == IF r.id \notin DOMAIN d.hosts THEN AddHost(d, r.id, r.addr, reach)
-                 ELSE IF d.hosts[r.id] = r.addr THEN d
-                 ELSE AddHost(RemoveHost(d, r.id), r.id, r.addr, reach)
+           d1 == IF r.id \notin DOMAIN d.hosts THEN AddHost(d, r.id, HA(r), reach)
+                 ELSE IF d.hosts[r.id] = HA(r) THEN d
+                 ELSE AddHost(RemoveHost(d, r.id), r.id, HA(r), reach)
        IN ApplyRows(d1, rep, reach, k + 1)
 
 RECURSIVE RemoveAll(_, _)
@@ -126,14 +135,15 @@ BatchNeedsRefresh(d, evs) ==
   \/ \E k \in 1 .. Len(evs) : IsTopo(evs[k])
   \/ \E a \in StatusAddrs(evs) : LastStatus(evs, a) = "UP" /\ AddrHolder(d, a) = NoId
 
-\* a node stops answering and cuts its connections: its pool gives up
-NodeFailD(d, a) == IF AddrHolder(d, a) # NoId /\ AddrHolder(d, a) \in d.pool THEN NodeDown(d, a) ELSE d
+\* the node at connect address a stops answering and cuts its connections: the pools that dial
+\* it give up and report that address as down
+NodeFailD(d, a) == IF \E i \in d.pool \cap DOMAIN d.hosts : d.hosts[i].addr = a THEN NodeDown(d, a) ELSE d
 
 (***************************************************************************)
 (* The property state                                                      *)
 (***************************************************************************)
-\* want[i] = the addresses host i may have (one, unless the cluster reported i twice)
-WantOf(rep) == [i \in RepIds(rep) |-> {rep[k].addr : k \in {j \in 1 .. Len(rep) : rep[j].id = i}}]
+\* want[i] = the [addr, n2n] host i may have (one, unless the cluster reported i twice)
+WantOf(rep) == [i \in RepIds(rep) |-> {HA(rep[k]) : k \in {j \in 1 .. Len(rep) : rep[j].id = i}}]
 
 \* rows the session has to ignore (used only to name the class of a violation)
 BadPairs(rows) == {<<rows[k].id, rows[k].addr>> : k \in {j \in 1 .. Len(rows) : rows[j].inv # "ok"}}
@@ -159,11 +169,13 @@ GhostRefresh(g, rows, filt) ==
                   ELSE IF i \in DOMAIN g.want /\ g.want[i] = w[i] THEN g.att[i]
                   \* reported twice before: the session may already be at this address
                   ELSE IF i \in DOMAIN g.want /\ w[i] \subseteq g.want[i] THEN "free"
-                  ELSE IF TheOne(w[i]) \in g.reach THEN "must" ELSE "free"],
+                  ELSE IF TheOne(w[i]).addr \in g.reach THEN "must" ELSE "free"],
        !.bad = BadPairs(rows), !.filtered = FilteredPairs(rows, filt),
        !.dup = HasDupIds(rep)]
 
-KnownAt(g, a) == {i \in DOMAIN g.want : a \in g.want[i]}
+\* hosts an event naming address a is about / hosts that are dialed at a
+KnownAt(g, a) == {i \in DOMAIN g.want : \E h \in g.want[i] : h.n2n = a}
+DialedAt(g, a) == {i \in DOMAIN g.want : \E h \in g.want[i] : h.addr = a}
 
 RECURSIVE GhostStatuses(_, _, _)
 GhostStatuses(g, evs, S) ==
@@ -172,9 +184,9 @@ GhostStatuses(g, evs, S) ==
            st == LastStatus(evs, a)
            g1 == [g EXCEPT !.att = [i \in DOMAIN g.att |->
                      IF i \notin KnownAt(g, a) THEN g.att[i]
-                     ELSE IF g.want[i] # {a} THEN "free"
+                     ELSE IF Cardinality(g.want[i]) # 1 THEN "free"
                      ELSE IF st = "DOWN" THEN "mustnot"
-                     ELSE IF a \in g.reach THEN "must" ELSE "free"]]
+                     ELSE IF TheOne(g.want[i]).addr \in g.reach THEN "must" ELSE "free"]]
        IN GhostStatuses(g1, evs, S \ {a})
 
 \* A batch that holds status events and causes a refresh: the property does not say which is
@@ -182,7 +194,7 @@ GhostStatuses(g, evs, S) ==
 \* the same batch may be connected or down (gOld: before the batch, gNew: after statuses + refresh).
 BatchRelax(gOld, gNew, evs) ==
   [gNew EXCEPT !.att = [i \in DOMAIN gNew.att |->
-     IF (\E a \in StatusAddrs(evs) : a \in gNew.want[i]) /\ ~(i \in DOMAIN gOld.want /\ gOld.want[i] = gNew.want[i])
+     IF (\E a \in StatusAddrs(evs) : \E h \in gNew.want[i] : h.n2n = a) /\ ~(i \in DOMAIN gOld.want /\ gOld.want[i] = gNew.want[i])
        THEN "free" ELSE gNew.att[i]]]
 
 GhostNeedsRefresh(g, evs) ==
@@ -191,7 +203,7 @@ GhostNeedsRefresh(g, evs) ==
 
 GhostNodeFail(g, a) ==
   [g EXCEPT !.reach = @ \ {a},
-            !.att = [i \in DOMAIN g.att |-> IF i \in KnownAt(g, a) /\ g.att[i] # "mustnot" THEN "free" ELSE g.att[i]],
+            !.att = [i \in DOMAIN g.att |-> IF i \in DialedAt(g, a) /\ g.att[i] # "mustnot" THEN "free" ELSE g.att[i]],
             !.ctl = IF a = C0addr THEN FALSE ELSE @]
 
 \* the control connection is (re-)established: the control node is connected to again
@@ -199,9 +211,11 @@ GhostControlBack(g) == [g EXCEPT !.ctl = TRUE, !.att = [i \in DOMAIN g.att |-> I
 
 (***************************************************************************)
 (* The property, as a function of an observed driver state                 *)
-(*   o.hosts  id -> address   (ring contents)                              *)
-(*   o.byid   id -> address   (lookup by id)                               *)
-(*   o.byAddr address -> id   (lookup by address)                          *)
+(*   o.hosts  id -> [addr, n2n] (ring contents)                            *)
+(*   o.byid   id -> [addr, n2n] (lookup by id)                             *)
+(*   o.byAddr address -> id   (lookup by address, every known address      *)
+(*            probed: connect, node-to-node, preferred, listen; "none" =   *)
+(*            the lookup said found and handed out no host)                *)
 (*   o.hlist  sequence of ids (ordered list)                               *)
 (*   o.poolA  id -> address of the pool's host                             *)
 (*   o.polE   set of [id, addr] the policy holds                           *)
@@ -215,32 +229,37 @@ Viol(o, g) ==
       W == DOMAIN g.want
       Must == {i \in W \cap H : g.att[i] = "must" /\ o.hosts[i] \in g.want[i]}
       MustNot == {i \in W \cap H : g.att[i] = "mustnot" /\ o.hosts[i] \in g.want[i]}
-      Others(i) == {j \in H \ {i} : o.hosts[j] = o.hosts[i]}
+      Others(i) == {j \in H \ {i} : o.hosts[j].addr = o.hosts[i].addr}
       \* the ring does not hold the reported nodes
       ringV ==
         {"ring-missing-host" \o Sfx(g) : i \in W \ H}
         \cup {IF i = ZeroId THEN "ring-invalid-peer-accepted-null-host-id"
               ELSE IF g.dup THEN "ring-stale-host-dup-id-rows"
-              ELSE IF <<i, o.hosts[i]>> \in g.bad THEN "ring-invalid-peer-accepted"
-              ELSE IF <<i, o.hosts[i]>> \in g.filtered THEN "ring-filtered-host-accepted"
+              ELSE IF <<i, o.hosts[i].addr>> \in g.bad THEN "ring-invalid-peer-accepted"
+              ELSE IF <<i, o.hosts[i].addr>> \in g.filtered THEN "ring-filtered-host-accepted"
               ELSE "ring-stale-host" \o Sfx(g) : i \in H \ W}
         \cup {"ring-stale-address" \o Sfx(g) : i \in {j \in H \cap W : o.hosts[j] \notin g.want[j]}}
       restV ==
         (IF o.byid # o.hosts THEN {"ring-byid-inconsistent"} ELSE {})
-        \cup {IF o.hosts[i] \in g.moved THEN "ring-byaddr-lost-after-id-replacement" ELSE "ring-byaddr-missing"
-                : i \in {j \in H : o.hosts[j] \notin DOMAIN o.byAddr}}
-        \cup {"ring-byaddr-stale" : a \in {b \in DOMAIN o.byAddr : o.byAddr[b] \notin H \/ (o.byAddr[b] \in H /\ o.hosts[o.byAddr[b]] # b)}}
+        \* every host of the ring is found under its node-to-node address ...
+        \cup {IF o.hosts[i].n2n \in g.moved THEN "ring-byaddr-lost-after-id-replacement" ELSE "ring-byaddr-missing"
+                : i \in {j \in H : o.hosts[j].n2n \notin DOMAIN o.byAddr}}
+        \* ... and whatever address the lookup knows names a host of the ring (the one lookup by
+        \* id returns) that has this address
+        \cup {"ring-byaddr-stale" : a \in {b \in DOMAIN o.byAddr : o.byAddr[b] \notin H
+                                                 \/ (o.byAddr[b] \in H /\ b \notin {o.hosts[o.byAddr[b]].n2n, o.hosts[o.byAddr[b]].addr})
+                                                 \/ (o.byAddr[b] \in H /\ o.hosts[o.byAddr[b]].n2n # b /\ \E j \in H : o.hosts[j].n2n = b)}}
         \cup (IF Len(o.hlist) # Cardinality(H) \/ Range(o.hlist) # H THEN {"ring-hostlist"} ELSE {})
         \cup {"pool-stale-host" : i \in DOMAIN o.poolA \ H}
-        \cup {"pool-stale-address" : i \in {j \in DOMAIN o.poolA \cap H : o.poolA[j] # o.hosts[j]}}
+        \cup {"pool-stale-address" : i \in {j \in DOMAIN o.poolA \cap H : o.poolA[j] # o.hosts[j].addr}}
         \cup {"pool-missing-host" : i \in Must \ DOMAIN o.poolA}
         \cup {"policy-stale-host" : e \in {x \in o.polE : x.id \notin H}}
-        \cup {"policy-stale-address" : e \in {x \in o.polE : x.id \in H /\ x.addr # o.hosts[x.id]}}
-        \cup {IF o.hosts[i] \in g.moved THEN "policy-missing-host-after-id-replacement" ELSE "policy-missing-host"
+        \cup {"policy-stale-address" : e \in {x \in o.polE : x.id \in H /\ x.addr # o.hosts[x.id].addr}}
+        \cup {IF o.hosts[i].addr \in g.moved THEN "policy-missing-host-after-id-replacement" ELSE "policy-missing-host"
                 : i \in {j \in Must : ~\E x \in o.polE : x.id = j}}
         \cup {"connected-host-marked-down" : i \in Must \cap o.down}
         \cup {"down-host-offered" : i \in {j \in MustNot : \E x \in o.polE : x.id = j}}
-        \cup {"down-host-served" : i \in {j \in MustNot : Others(j) = {} /\ o.hosts[j] \in o.served}}
+        \cup {"down-host-served" : i \in {j \in MustNot : Others(j) = {} /\ o.hosts[j].addr \in o.served}}
         \cup {"down-host-marked-up" : i \in MustNot \ o.down}
         \cup (IF o.refreshes > RefreshBound THEN {"refresh-storm"} ELSE {})
   IN \* a panic is reported alone; a wrong ring content is reported without what follows from it
@@ -249,9 +268,9 @@ Viol(o, g) ==
 \* the observation a model state corresponds to
 ObsOf(dd, nref) ==
   [hosts |-> dd.hosts, byid |-> dd.hosts, byAddr |-> dd.byAddr, hlist |-> dd.hlist,
-   poolA |-> [i \in dd.pool \cap DOMAIN dd.hosts |-> dd.hosts[i]],
-   polE |-> {[id |-> i, addr |-> dd.hosts[i]] : i \in dd.pol \cap DOMAIN dd.hosts},
-   down |-> dd.down, served |-> {dd.hosts[i] : i \in (dd.pool \cap dd.pol) \ dd.down},
+   poolA |-> [i \in dd.pool \cap DOMAIN dd.hosts |-> dd.hosts[i].addr],
+   polE |-> {[id |-> i, addr |-> dd.hosts[i].addr] : i \in dd.pol \cap DOMAIN dd.hosts},
+   down |-> dd.down, served |-> {dd.hosts[i].addr : i \in (dd.pool \cap dd.pol) \ dd.down},
    refreshes |-> nref, panic |-> ""]
 
 (***************************************************************************)
@@ -270,9 +289,10 @@ InitWith(rows) ==
   /\ d = FreshSession(rows, Filt, AllAddrs)
   /\ nref = 0
 
-\* addresses at which a host now lives that another id held in the previous picture
+\* addresses (of either kind) at which a host now lives that another id held in the previous picture
+AddrsOf(S) == {h.addr : h \in S} \cup {h.n2n : h \in S}
 MovedAddrs(gOld, gNew) ==
-  {a \in AllAddrs : \E i \in DOMAIN gNew.want : a \in gNew.want[i] /\ \E j \in DOMAIN gOld.want \ {i} : a \in gOld.want[j]}
+  {a \in EventAddrs : \E i \in DOMAIN gNew.want : a \in AddrsOf(gNew.want[i]) /\ \E j \in DOMAIN gOld.want \ {i} : a \in AddrsOf(gOld.want[j])}
 
 RefreshOK(fail) == g.ctl /\ fail = "none"
 
@@ -330,7 +350,7 @@ PropertyHolds == Viol(ObsOf(d, nref), g) = {}
 
 TypeOK ==
   /\ DOMAIN d.hosts \subseteq Ids \cup {C0id}
-  /\ \A i \in DOMAIN d.hosts : d.hosts[i] \in AllAddrs
+  /\ \A i \in DOMAIN d.hosts : d.hosts[i].addr \in AllAddrs /\ d.hosts[i].n2n \in EventAddrs
   /\ d.pool \subseteq DOMAIN d.hosts /\ d.pol \subseteq DOMAIN d.hosts /\ d.down \subseteq DOMAIN d.hosts
   /\ nref \in 0 .. 1
 =============================================================================
